@@ -117,3 +117,49 @@ def replay(job):
             raise
         return dict(tid=job['tid'], status='exception', phase=phase[0], exc='%s: %s' % (type(e).__name__, e),
                     where='%s:%d' % (tb[-1].filename, tb[-1].lineno))
+
+
+def replay_weak_relaxation(job):
+    """A MILP family with a WEAK LP relaxation (number partitioning: min |a.x - b| over binaries): branch-and-bound needs
+    thousands of nodes, so iteration / node limits of an interface matter.  The instances are feasible and bounded (the ECOS
+    branch-and-bound, which never returns on infeasible integer programs, can therefore be included).  Oracle: brute force."""
+    import importlib
+    import itertools
+    import traceback
+    from rsome import ro
+    a = np.array(job['a'], dtype=float)
+    n = len(a)
+    b = a.sum() / 2.0 + 0.5
+    X = np.array(list(itertools.product((0.0, 1.0), repeat=n)))
+    brute = float(np.min(np.abs(X @ a - b)))
+    out = dict(tid=job['tid'], brute=brute, runs=[])
+    for iface in job['ifaces']:
+        m = ro.Model()
+        x = m.dvar(n, 'B')
+        t = m.dvar()
+        m.min(t)
+        m.st(t >= a @ x - b, t >= b - a @ x)
+        rec = dict(iface=iface)
+        try:
+            if iface == 'def':
+                m.solve(display=False)
+            elif iface == 'grb':
+                m.solve(importlib.import_module('rsome.grb_solver'), display=False, params={'TimeLimit': 60})
+            else:
+                m.solve(importlib.import_module('rsome.%s_solver' % iface), display=False)
+        except Exception as e:
+            tb = traceback.extract_tb(e.__traceback__)
+            if not any('/rsome/' in fr.filename for fr in tb):
+                raise
+            rec.update(status='raised', exc='%s: %s' % (type(e).__name__, e))
+            out['runs'].append(rec)
+            continue
+        s_ = m.solution
+        if s_ is not None and not (isinstance(s_.objval, float) and math.isnan(s_.objval)):
+            xv = np.array(x.get(), dtype=float).reshape(-1)
+            rec.update(status='ok', objval=float(s_.objval), at_x=float(abs(a @ np.round(xv) - b)), integral=float(np.max(np.abs(xv - np.round(xv)))),
+                       solver_status=str(s_.status))
+        else:
+            rec.update(status='fail', solver_status=str(getattr(s_, 'status', None)))
+        out['runs'].append(rec)
+    return out
